@@ -119,7 +119,8 @@ type cliCase struct {
 	auth     replySpec
 	users    []replySpec
 	needsDev bool
-	mustFail bool // the scenario contains a connection / authentication / protocol failure
+	mustFail bool           // the scenario contains a connection / authentication / protocol failure
+	replyMs  []rscp.Message // the one reply of an unsplit healthy exchange, for the Go-side output oracle of C13
 }
 
 func (c *cliCase) op() string {
@@ -224,7 +225,15 @@ func cliExec(rundir string, n int, c *cliCase) (impl, prop string) {
 		prop = "FAIL C15 the exchange failed but the tool exits with status 0 and prints " + trunc(r.stdout, 80)
 	case r.status == 0:
 		if !docOK {
-			prop = "FAIL C15 status 0 without exactly one JSON document on standard output: " + trunc(r.stdout, 80)
+			prop = "FAIL C15 status 0 without exactly one JSON document on standard output: " + trunc(r.stdout, 80) + " ;; FAIL C13 the output is not one valid JSON document: " + trunc(r.stdout, 80)
+		} else if c.replyMs != nil && !c.split {
+			f := c.format
+			if f == "" {
+				f = "jsonmerged"
+			}
+			if why := structureOK(c.replyMs, f, []byte(r.stdout)); why != "" {
+				prop = "FAIL C13 what the tool prints is not what the device answered: " + why
+			}
 		}
 	default:
 		if r.stdout != "" || r.stderr == "" {
@@ -399,6 +408,16 @@ func init() {
 			c.args = append(c.args, c.reqText)
 			add(c)
 		}
+		// unusual but legal user names and passwords on the command line
+		for _, v := range []string{"@home", "@", "a@", "user@example.org", "ä€", "%s%d", "a b", "-"} {
+			c := base("unusual user name " + strconv.Quote(v))
+			c.user, c.pw = v, v+"pw"
+			c.args = []string{"-host", "127.0.0.1", "-port", "{PORT}", "-user", v, "-password", v + "pw", "-key", "clikey"}
+			ms := mkReq(c, 1, true)
+			answers(c, ms)
+			c.args = append(c.args, c.reqText)
+			add(c)
+		}
 		// every spelling of the output option against a healthy device, split and unsplit
 		for k, f := range []string{"json", "jsonsimple", "jsonmerged", "xml", "JSON", "Json", "json ", " json", " jsonmerged", "jsonsimple\t", "json\n", "jsonmerged ", " "} {
 			for _, split := range []bool{false, true} {
@@ -445,8 +464,53 @@ func init() {
 			for k := 0; k <= g.pick(5); k++ {
 				rs = append(rs, g.response(2, tags, false))
 			}
+			c.replyMs = rs
 			c.users = []replySpec{frameReply(rs)}
 			c.args = append(c.args, "-output", c.format, c.reqText)
+			add(c)
+		}
+		// string values that look like JSON escapes, HTML, or carry quotes / backslashes / control characters / non-ASCII
+		// text: printed by the real binary they have to come back as the same string
+		for k, str := range []string{`C:\users\u0026\e3dc`, `\u003c`, `a\\u003eb`, `&<>`, `\u0026amp;`, `"quoted"`, `back\slash\`, "tab\tnew\nline", "nul\x00byte", "é€😀", "\u2028\u2029", `{"json":"inside"}`, `]`, ``} {
+			for _, f := range []string{"json", "jsonsimple", "jsonmerged"} {
+				c := base("string value " + strconv.Quote(str))
+				c.format = f
+				mkReq(c, 1, true)
+				c.replyMs = []rscp.Message{{Tag: rscp.INFO_SERIAL_NUMBER, DataType: rscp.CString, Value: str},
+					{Tag: rscp.BAT_DATA, DataType: rscp.Container, Value: []rscp.Message{{Tag: rscp.BAT_DEVICE_NAME, DataType: rscp.CString, Value: str}}}}
+				c.users = []replySpec{frameReply(c.replyMs)}
+				c.args = append(c.args, "-output", f, c.reqText)
+				_ = k
+				add(c)
+			}
+		}
+		// the same tag twice on one level, for every data type (and a container), in every format
+		for _, dt := range definedTypes {
+			ts := g.byType[dt]
+			t := rscp.Tag(0x7f800001)
+			if len(ts) > 0 {
+				t = ts[g.pick(len(ts))] | 1<<23
+			}
+			m1 := g.responseOfType(t, dt)
+			m2 := g.responseOfType(t, dt)
+			for _, f := range []string{"json", "jsonsimple", "jsonmerged"} {
+				c := base(fmt.Sprintf("same tag twice dt=%d", dt))
+				c.format = f
+				mkReq(c, 1, true)
+				c.replyMs = []rscp.Message{m1, m2, {Tag: rscp.BAT_DATA, DataType: rscp.Container, Value: []rscp.Message{m2, m1}}}
+				c.users = []replySpec{frameReply(c.replyMs)}
+				c.args = append(c.args, "-output", f, c.reqText)
+				add(c)
+			}
+		}
+		// request texts with something behind the top-level value
+		for _, txt := range []string{`["INFO_REQ_SERIAL_NUMBER"]]`, `["INFO_REQ_SERIAL_NUMBER"]}`, `["INFO_REQ_SERIAL_NUMBER"] ]`, `["INFO_REQ_SERIAL_NUMBER"][]`, `["INFO_REQ_SERIAL_NUMBER"],`,
+			`["INFO_REQ_SERIAL_NUMBER"]}{`, `["INFO_REQ_SERIAL_NUMBER"] null`, `["INFO_REQ_SERIAL_NUMBER"]\u0000`} {
+			c := base("trailing data after the request " + trunc(txt, 40))
+			c.mustFail = true // not a request text: a diagnostic and a non-zero status, nothing sent
+			c.reqText, c.reqJ = txt, nil
+			c.users = []replySpec{frameReply([]rscp.Message{{Tag: rscp.INFO_SERIAL_NUMBER, DataType: rscp.CString, Value: "s"}})}
+			c.args = append(c.args, txt)
 			add(c)
 		}
 		// split run equals unsplit run against a device that answers every request with one message
